@@ -600,7 +600,7 @@ func main() {
 	workDir = filepath.Join(*verif, ".work")
 	cacheDir = filepath.Join(*verif, ".cache")
 	if *timeout == 0 {
-		*timeout = 60
+		*timeout = 90
 		if *tier == "thorough" {
 			*timeout = 240
 		}
